@@ -262,8 +262,6 @@ func storageWaterBalance(rainfallTS, petTS, inflowTS, demandTS, targetMinimumVol
 						// return
 					}
 				}
-				rainfallVolForTimestep += rainfallPerSecond * avgArea * subtimestep
-				evaporationVolForTimestep += petPerSecond * avgArea * subtimestep
 				subtimestep = math.Max(subtimestep*0.5,MIN_TIMESTEP_SECONDS_NEGATIVE)
 			}
 
@@ -273,6 +271,8 @@ func storageWaterBalance(rainfallTS, petTS, inflowTS, demandTS, targetMinimumVol
 			// netAtmosphericFluxInRate = netAtmosphericFluxDepthPerSecond * (area+testArea)/2.0
 			// netFluxInWithoutRelease = inflow + netAtmosphericFluxInRate
 			volume = volume + (inflow+(netAtmosphericFluxDepthPerSecond*avgArea)-avgOutflow) * subtimestep
+			rainfallVolForTimestep += rainfallPerSecond * units.MILLIMETRES_TO_METRES * avgArea * subtimestep
+			evaporationVolForTimestep += petPerSecond * units.MILLIMETRES_TO_METRES * avgArea * subtimestep
 			if volume < 0 {
 				// report()
 				panic(err)
